@@ -297,6 +297,7 @@ def run_history(ctx, idx, rng, tmp):
     deleted = set()
     ds = build(kind, data, cfg, temp, tmp, idx)
     child = None
+    chain = []
     hist = []
     read_before = {}
     nontrivial = False
@@ -349,7 +350,20 @@ def run_history(ctx, idx, rng, tmp):
                 for sk in (("imaging", "pixel size"), ("setup", "flow rate"),
                            ("setup", "channel width"), ("setup", "chip region")):
                     probes.append(("emodulus",) + sk)
+                probes += [("time", "imaging", "frame rate"), ("area_um", "imaging", "pixel size"),
+                           ("volume", "imaging", "pixel size")]
                 feat, sec, key = probes[int(rng.integers(0, len(probes)))]
+                # every third probe reads through a member of a hierarchy (depth 1-3) that is
+                # refreshed before each read
+                probe_level = None
+                if rng.random() < 0.35:
+                    if child is None:
+                        chain = [dclab.new_dataset(ds)]
+                        for _ in range(int(rng.integers(0, 3))):
+                            chain.append(dclab.new_dataset(chain[-1]))
+                        child = chain[-1]
+                        ctx.count(f"hierarchy_depth[{len(chain)}]")
+                    probe_level = int(rng.integers(0, len(chain)))
                 if feat == "emodulus" and rng.random() < 0.75:
                     # establish one of the documented scenarios first
                     scen = str(rng.choice(["C", "A", "B"]))
@@ -393,8 +407,19 @@ def run_history(ctx, idx, rng, tmp):
                         if area_um is None:
                             pix = eff_cfg()["imaging"].get("pixel size")
                             area_um = data["area_cvx"] * pix ** 2 if pix else None
-                        hist.append(["read", feat, "root (chain probe)"])
-                        judge_read(ctx, ds, twin, feat, hist, eff_cfg(), data, area_um)
+                        if probe_level is None:
+                            hist.append(["read", feat, "root (chain probe)"])
+                            judge_read(ctx, ds, twin, feat, hist, eff_cfg(), data, area_um)
+                        else:
+                            hist.append(["read", feat, f"hierarchy level {probe_level + 1} "
+                                                       f"(chain probe, after refresh)"])
+                            chain[probe_level].rejuvenate()
+                            tch = dclab.new_dataset(twin)
+                            for _ in range(probe_level):
+                                tch = dclab.new_dataset(tch)
+                            judge_read(ctx, chain[probe_level], tch, feat, hist, eff_cfg(),
+                                       data, area_um)
+                            ctx.count(f"probes_through_hierarchy_level[{probe_level + 1}]")
                     finally:
                         twin.close()
                     if rep == 0:
@@ -419,9 +444,15 @@ def run_history(ctx, idx, rng, tmp):
                     read_before[f] = "changed"
             elif r < 0.56:
                 if child is None:
-                    child = dclab.new_dataset(ds)
-                child.rejuvenate()
-                hist.append(["child refresh"])
+                    # a chain of 1-3 hierarchy members below the dataset
+                    chain = [dclab.new_dataset(ds)]
+                    for _ in range(int(rng.integers(0, 3))):
+                        chain.append(dclab.new_dataset(chain[-1]))
+                    child = chain[-1]
+                    ctx.count(f"hierarchy_depth[{len(chain)}]")
+                which = int(rng.integers(0, len(chain)))
+                chain[which].rejuvenate()
+                hist.append(["child refresh", which + 1])
             else:
                 feat = feats[int(rng.integers(0, len(feats)))]
                 via_child = child is not None and rng.random() < 0.3
@@ -438,9 +469,15 @@ def run_history(ctx, idx, rng, tmp):
                         pix = eff_cfg()["imaging"].get("pixel size")
                         area_um = data["area_cvx"] * pix ** 2 if pix else None
                     if via_child:
-                        child.rejuvenate()
+                        which = int(rng.integers(0, len(chain)))
+                        hist[-1].append(which + 1)
+                        chain[which].rejuvenate()
                         tchild = dclab.new_dataset(twin)
-                        judge_read(ctx, child, tchild, feat, hist, eff_cfg(), data, area_um)
+                        for _ in range(which):
+                            tchild = dclab.new_dataset(tchild)
+                        judge_read(ctx, chain[which], tchild, feat, hist, eff_cfg(), data,
+                                   area_um)
+                        ctx.count(f"reads_through_hierarchy_level[{which + 1}]")
                     else:
                         judge_read(ctx, ds, twin, feat, hist, eff_cfg(), data, area_um)
                 finally:
